@@ -443,6 +443,44 @@ Proof.
   - unfold InvNF, init. proj. discriminate.
 Qed.
 
+(* ---- the same specifications for every state a script can reach -------------------- *)
+
+Theorem reachable_setfield ops s : runs ops (init rx) = Ok s ->
+  forall s1 i t, ensure s = Ok s1 -> 1 <= i <= maxFieldIndex ->
+  exists s', setf s i t = Ok s' /\
+    viewof s' = Ok (join_fields rx s (put (fields rx s1) i t), put (fields rx s1) i t,
+                    count_value (Z.max (zlen (fields rx s1)) i)).
+Proof.
+  intros Hr s1 i t He Hi.
+  destruct (set_field_pos rx all_matches am_sorted s s1 i t (Inv_reachable rx all_matches am_sorted _ _ Hr) He Hi)
+    as (s' & Hs & Hf & _ & Hl & _ & Hnf & Hh & _).
+  exists s'. split; [exact Hs|].
+  unfold view. rewrite (ensure_of_have rx all_matches s' Hh). cbn [rbind]. rewrite Hl, Hf, Hnf. reflexivity.
+Qed.
+
+Theorem reachable_setnf ops s : runs ops (init rx) = Ok s ->
+  forall s1 v, ensure s = Ok s1 -> 0 <= f2i64 (vnum v) <= maxFieldIndex ->
+  exists s', setnf s v = Ok s' /\
+    viewof s' = Ok (join_fields rx s (resize (f2i64 (vnum v)) (fields rx s1)),
+                    resize (f2i64 (vnum v)) (fields rx s1), v).
+Proof.
+  intros Hr s1 v He Hn.
+  destruct (set_nf_spec rx all_matches am_sorted s s1 v (Inv_reachable rx all_matches am_sorted _ _ Hr) He Hn)
+    as (s' & Hs & Hf & _ & Hl & _ & Hnf & Hh & _).
+  exists s'. split; [exact Hs|].
+  unfold view. rewrite (ensure_of_have rx all_matches s' Hh). cbn [rbind]. rewrite Hl, Hf, Hnf. reflexivity.
+Qed.
+
+Theorem reachable_getfield ops s : runs ops (init rx) = Ok s ->
+  forall x s' w l fl v, viewof s = Ok (l, fl, v) ->
+  exec s (GetField rx (IConst x)) = Ok (s', w) ->
+  w = OVal (if f2i64 x =? 0 then l else field_at fl (f2i64 x)) /\ viewof s' = viewof s.
+Proof.
+  intros Hr x s' w l fl v Hv H. split.
+  - exact (getfield_returns_view s x s' w l fl v (Inv_reachable rx all_matches am_sorted _ _ Hr) Hv H).
+  - exact (reads_are_pure s (GetField rx (IConst x)) s' w eq_refl H).
+Qed.
+
 (* ---- getline $i ----------------------------------------------------------------- *)
 
 (* when the index is 0 the opcode does what the assignment does *)
